@@ -29,6 +29,7 @@ from pyvc import terms as tm
 from pyvc.framework import run_property
 from pyvc.interp import Obj, ExcV, FileV, Opaque, ClassV
 from contracts.common import *
+from contracts.kernelcommon import returned
 
 TMOD = "ciderpress.dft.transform_data"
 XMOD = "ciderpress.dft.xc_evaluator"
@@ -337,8 +338,95 @@ def unit_load_model(ctx):
     ctx.assume("yaml.load / joblib.load return the stored object (library contracts); format strings and file names are enumerated over representatives of each branch of load_cider_model (exhaustive over its comparisons)")
 
 
+AMOD = "ciderpress.pyscf.analyzers"
+
+
+def unit_analyzer(ctx):
+    """ElectronAnalyzer.dump / load (as_dict, from_dict) with the PySCF pieces under contract:
+         gto.mole.unpack(gto.mole.pack(mol)) is a molecule equivalent to mol (ghost tag);  Grids(mol) has a settable level and build() fixes the grid for the level
+         it holds at that moment;  lib.chkfile.dump / load round-trip plain containers, numbers, strings and arrays (None entries are removed before dumping).
+       ensures  load(dump(a)) is an analyzer of the same class, for an equivalent molecule, with the SAME grid level for EVERY integer level (so the stored
+       grid-resolved data fit the rebuilt grid), the same density matrix and orbital data, and the same stored data."""
+    from pyvc.interp import Builtin
+    it = ctx.interp
+    am = it.load_module(AMOD)
+    fq = [AMOD + ":ElectronAnalyzer.as_dict", AMOD + ":ElectronAnalyzer.from_dict", AMOD + ":ElectronAnalyzer.dump", AMOD + ":ElectronAnalyzer.load", AMOD + ":ElectronAnalyzer.__init__"]
+    ctx.assume("PySCF contracts: gto.mole.pack/unpack are mutually inverse up to object identity; Grids.build() builds the grid of the level attribute held at the call; "
+               "lib.chkfile.dump/load round-trip dicts of numbers, strings and arrays")
+
+    def mk_mol(tag):
+        mol = Obj(ClassV("_Mole", [], am))
+        mol.fields.update({"tag": tag, "verbose": 0, "nbuild": 0})
+        mol.fields["build"] = Builtin("mol.build", lambda *a, **k: mol.fields.__setitem__("nbuild", mol.fields["nbuild"] + 1))
+        return mol
+    mole = Obj(ClassV("_gto_mole", [], am))
+    mole.fields["pack"] = Builtin("gto.mole.pack", lambda mol: {"packed_tag": mol.fields["tag"]})
+    mole.fields["unpack"] = Builtin("gto.mole.unpack", lambda d: mk_mol(d["packed_tag"]))
+    gto = Obj(ClassV("_gto", [], am))
+    gto.fields["mole"] = mole
+    am.ns["gto"] = gto
+
+    def mk_grids(mol):
+        g = Obj(ClassV("_Grids", [], am))
+        g.fields.update({"mol": mol, "level": 3, "built_level": None})
+        g.fields["build"] = Builtin("grids.build", lambda *a, **k: g.fields.__setitem__("built_level", g.fields["level"]))
+        return g
+    am.ns["Grids"] = Builtin("Grids", mk_grids)
+    files = {}
+    chk = Obj(ClassV("_chkfile", [], am))
+    chk.fields["dump"] = Builtin("chkfile.dump", lambda fname, key, d: files.__setitem__((fname, key), yaml_copy(d)))
+    chk.fields["load"] = Builtin("chkfile.load", lambda fname, key: yaml_copy(files[(fname, key)]))
+    lib = Obj(ClassV("_lib", [], am))
+    lib.fields["chkfile"] = chk
+    am.ns["lib"] = lib
+    L = tm.var("grids_level", "I")
+    levels = [("symbolic level", L)] + [("level %d" % k, k) for k in (0, 1, 3, 9)]
+    for cname in ("RHFAnalyzer", "UHFAnalyzer"):
+        cls = am.ns[cname]
+        for lab, lev in levels:
+            for with_mo in (True, False):
+                it.hyps = [tm.mk_le(tm.ZERO, L), tm.mk_le(L, tm.lift(9))]
+                dm = sym_array("dm", (2, 2))
+                occ, coeff, en = (sym_array("occ", (2,)), sym_array("mo", (2, 2)), sym_array("e", (2,))) if with_mo else (None, None, None)
+                rho_data = sym_array("rho_data", (3,))
+
+                def cycle():
+                    a = it.call(cls, [mk_mol("M"), dm.copy()], {"grids_level": lev, "mo_occ": occ, "mo_coeff": coeff, "mo_energy": en})
+                    it.call_method(a, "set", ["rho_data", rho_data.copy()])
+                    it.call_method(a, "set", ["xc_list", ["PBE"]])
+                    it.call_method(a, "dump", ["an.hdf5"])
+                    return a, it.call_method(am.ns["ElectronAnalyzer"], "load", ["an.hdf5"])
+                tag = "%s[%s,%s]" % (cname, lab, "with orbitals" if with_mo else "density matrix only")
+                paths = all_paths(it, cycle)
+                ret, exc = returned(paths)
+                ctx.holds("%s: dump / load returns" % tag, len(ret) >= 1 and not exc, "%s" % [str(p[1])[:200] for p in exc], fq, replay=replay_analyzer())
+                for k, ((a, b), pc) in enumerate(ret):
+                    H = list(it.hyps) + list(pc)
+                    ctx.holds("%s path %d: same analyzer class" % (tag, k), isinstance(b, Obj) and b.cls is cls, getattr(getattr(b, "cls", None), "name", str(b)), fq)
+                    if not isinstance(b, Obj):
+                        continue
+                    ctx.equal("%s path %d: the reloaded analyzer has the grid level it was dumped with" % (tag, k), H, b.fields["grids_level"], lev, fq, replay=replay_analyzer())
+                    ctx.equal("%s path %d: its grid was built at that level" % (tag, k), H, b.fields["grids"].fields["built_level"], lev, fq, replay=replay_analyzer())
+                    if isinstance(lev, tm.T) and with_mo:
+                        ctx.canary("%s path %d canary (level off by one)" % (tag, k), H, b.fields["grids_level"], lev + 1)
+                    ctx.holds("%s path %d: equivalent molecule, built" % (tag, k), b.fields["mol"].fields["tag"] == "M" and b.fields["mol"].fields["nbuild"] >= 1, "", fq)
+                    same = lambda x, y: (x is None and y is None) or (x is not None and y is not None and same_elements(np.asarray(x, dtype=object), np.asarray(y, dtype=object)))
+                    ctx.holds("%s path %d: density matrix and orbital data identical" % (tag, k),
+                              same(b.fields["dm"], dm) and same(b.fields["mo_occ"], occ) and same(b.fields["mo_coeff"], coeff) and same(b.fields["mo_energy"], en), "", fq)
+                    d0, d1 = a.fields["_data"], b.fields["_data"]
+                    ctx.holds("%s path %d: stored data identical" % (tag, k), sorted(d0) == sorted(d1) and same(d1["rho_data"], rho_data) and list(d1["xc_list"]) == ["PBE"], "%s vs %s" % (sorted(d0), sorted(d1)), fq)
+    it.hyps = []
+
+
+def replay_analyzer():
+    def replay(wit):
+        return {"reproduced": None, "note": "native replay needs PySCF SCF objects and HDF5; the contract-level counterexample names the level"}
+    return replay
+
+
 def units():
     u = [("class/" + c, unit_class(c)) for c in class_names()]
+    u.append(("analyzer", unit_analyzer))
     u += [("registry", unit_registry), ("featlist", unit_featlist), ("spline", unit_spline), ("load_model", unit_load_model)]
     return u
 
@@ -352,7 +440,7 @@ TRUSTED = [
     "PyYAML / joblib round trip is the identity on plain containers, numbers, strings and ndarrays (assumed library contract)",
     "A4: Python semantics of pyvc.interp; file system modelled as a name -> value map",
     "MappedDFTKernel(2).to_dict/from_dict are not under contract: from_dict raises NotImplementedError and to_dict calls a method FeatureList does not have (it raises, it cannot mis-load) — observation only",
-    "ElectronAnalyzer.dump/load (HDF5 + PySCF Mole) not covered",
+    "ElectronAnalyzer.dump/load: PySCF's Mole pack/unpack, Grids and chkfile by contract (unit analyzer)",
 ]
 
 if __name__ == "__main__":
